@@ -127,6 +127,10 @@ class World:
                 'mask_row': lambda: f.loc[sf.Series(np.ones(len(f.index), dtype=bool), index=f.index)],
                 'dropna': lambda: f.dropna() if len(f.columns) else f.iloc[:, :],
                 'iter_frame_group_array': lambda: f.iloc[np.ones(len(f.index), dtype=bool)],
+                # value-preserving element-wise transformations (the result is a new container of the same class)
+                'round0': lambda: round(f, 0) if len(f.columns) else f.iloc[:, :],
+                'neg_neg': lambda: -(-f) if len(f.columns) else f.iloc[:, :],
+                'clip_wide': lambda: f.clip(lower=-10 ** 9, upper=10 ** 9) if len(f.columns) else f.iloc[:, :],
             }[route]()
         else:
             ix = o
